@@ -573,3 +573,6 @@ func (p *Peer) ReadApp() ([]byte, error) {
 		}
 	}
 }
+
+// Transcript returns a copy of the handshake transcript so far.
+func (p *Peer) Transcript() []byte { return append([]byte{}, p.transcript...) }
